@@ -436,7 +436,11 @@ def compile_ast(
             )
 
             if nd.how == "left":
-                joined = df.join(joined, on="__INDEX__", how="left").drop("__INDEX__")
+                # only the right columns are taken from `joined` (the left ones would come back with polars' default
+                # suffix `_right`, which may be the name of a right column)
+                joined = df.join(
+                    joined.select("__INDEX__", *right_name_in_df.values()), on="__INDEX__", how="left"
+                ).drop("__INDEX__")
 
             df = joined
 
